@@ -1,6 +1,7 @@
 package main
 
 import (
+	"encoding/json"
 	"flag"
 	"fmt"
 	"os"
@@ -19,6 +20,8 @@ func main() {
 		cmdList(os.Args[2:])
 	case "check":
 		cmdCheck(os.Args[2:])
+	case "replay":
+		cmdReplay(os.Args[2:])
 	case "entries":
 		p, err := loadProgram("/repo", "verif")
 		if err != nil {
@@ -120,4 +123,94 @@ func cmdVerify(args []string) {
 	if bad > 0 {
 		os.Exit(1)
 	}
+}
+
+
+// cmdReplay: re-examine a recorded violation against the CURRENT /repo.
+// If the record carries a generated test (a model that was reproduced on the real code), the test is run again;
+// otherwise the function named in the record is re-verified and the recorded obligation is looked up.
+// Exit 1 if the violation is still there, 0 if it is gone, 2 on usage errors.
+func cmdReplay(args []string) {
+	fs := flag.NewFlagSet("replay", flag.ExitOnError)
+	repo := fs.String("repo", "/repo", "repository")
+	fs.Parse(args)
+	if fs.NArg() != 1 {
+		fmt.Fprintln(os.Stderr, "usage: govc replay [-repo DIR] <replay.json>")
+		os.Exit(2)
+	}
+	data, err := os.ReadFile(fs.Arg(0))
+	if err != nil {
+		fmt.Fprintln(os.Stderr, err)
+		os.Exit(2)
+	}
+	var rec map[string]interface{}
+	if err := json.Unmarshal(data, &rec); err != nil {
+		fmt.Fprintln(os.Stderr, "not a replay record:", err)
+		os.Exit(2)
+	}
+	str := func(k string) string { s, _ := rec[k].(string); return s }
+	fmt.Printf("obligation: %s\nclause:     %s\nposition:   %s\nrecorded:   %s (%s)\n", str("obligation"), str("clause"), str("position"), str("solver_result"), str("backend"))
+	if n := str("replay_note"); n != "" {
+		fmt.Println("note:       " + n)
+	}
+	if f := str("finding"); f != "" {
+		fmt.Println("finding:    " + f)
+	}
+	if r := str("reason"); r != "" {
+		fmt.Println("reason:     " + r)
+	}
+	tags := str("build_tags")
+	if tags == "" {
+		tags = str("tags")
+	}
+	if tags == "" {
+		tags = "verif"
+	}
+	fn := str("function")
+	if src := str("test_source"); src != "" && fn != "" {
+		out, ok := runReplayTest(*repo, &FuncResult{Key: fn, Tags: tags}, nil, src)
+		fmt.Println(out)
+		if ok {
+			fmt.Println("REPLAY: the recorded input still reproduces the violation on the real code")
+			os.Exit(1)
+		}
+		fmt.Println("REPLAY: the recorded input no longer reproduces the violation; re-verifying the function")
+	}
+	if fn == "" || strings.HasSuffix(fn, "#lockfast") || str("kind") == "scan" || str("kind") == "" {
+		fmt.Println("REPLAY: no single function to re-verify for this record; run the property check again")
+		os.Exit(1)
+	}
+	p, err := loadProgram(*repo, tags)
+	if err != nil {
+		fmt.Println("load error:", err)
+		os.Exit(2)
+	}
+	db, err := loadSpecs(*repo, tags)
+	if err != nil {
+		fmt.Println("contract error:", err)
+		os.Exit(2)
+	}
+	var r *FuncResult
+	if strings.HasPrefix(fn, "lemma.") {
+		r = verifyLemma(p, db, strings.TrimPrefix(fn, "lemma."))
+	} else {
+		r = verifyFunc(p, db, fn, true)
+	}
+	discharge([]*FuncResult{r}, solveOpts{outDir: "/verif/out/vc/replay", seed: 1, timeoutS: 40, jobs: 8})
+	if r.Err != "" {
+		fmt.Println("REPLAY: " + fn + " cannot be verified: " + r.Err)
+		os.Exit(1)
+	}
+	for _, o := range r.Obls {
+		if o.Name == str("obligation") {
+			if o.ok() {
+				fmt.Printf("REPLAY: %s is discharged on the current tree (%s, %s)\n", o.Name, o.Result, o.Backend)
+				os.Exit(0)
+			}
+			fmt.Printf("REPLAY: %s is still undischarged on the current tree (%s, %s)\n%s\n", o.Name, o.Result, o.Backend, o.Detail)
+			os.Exit(1)
+		}
+	}
+	fmt.Println("REPLAY: the obligation no longer exists under this name; run the property check again")
+	os.Exit(1)
 }
